@@ -2,8 +2,8 @@ import UmProofs.BrokerScaleBasic
 /-!
 # C10 — `auto_delete_free_nodes` releases exactly the empty chunks
 -/
-namespace Um.Broker
-open Um Um.Slots
+namespace Um.Broker.Scale
+open Um Um.Slots Um.Broker
 
 theorem Chunk.isFree_iff (c : Chunk) :
     c.isFree = true ↔ c.stable0 = none ∧ c.stable1 = none ∧ c.mig0 = [] ∧ c.mig1 = [] := by
@@ -248,4 +248,4 @@ theorem autoChangeNodeNumber_decomp {s : Store} {name : String} {cl : Cluster} (
   | panic w => exact Or.inl rfl
   | badChoice w => exact Or.inl rfl
 
-end Um.Broker
+end Um.Broker.Scale
